@@ -82,7 +82,8 @@ theorem idx_ok' (b : Bytes) (i : Nat) (s : String) (h : i < b.length) : idx b i 
 /-- shape of a message of at most 257 bytes that `FromBytes` accepts: one chunk that spans the whole input -/
 theorem fromBytes_one (src : Bytes) (m : Msg) (hq : src.length ≤ 257) (h : fromBytes src = .ok m) :
     src.length = 2 + (src.getD 0 0).toNat ∧
-    fromChunks [⟨(src.drop 2).take (src.getD 0 0).toNat, (src.getD 0 0).toNat, (src.getD 1 0).toNat⟩] = .ok m := by
+    fromChunks [⟨(src.drop 2).take (src.getD 0 0).toNat, (src.getD 0 0).toNat, (src.getD 1 0).toNat⟩] = .ok m ∧
+    (src.getD 1 0).toNat = l4winbox_MessageChunkTypeAuth := by
   unfold fromBytes at h
   split at h
   · cases h
@@ -104,10 +105,12 @@ theorem fromBytes_one (src : Bytes) (m : Msg) (hq : src.length ≤ 257) (h : fro
       rw [idx_ok' src 1 _ (by omega), Res.bind_ok] at h
       split at h
       · cases h
-      · rw [slice_ok src _ _ _ (by omega) (by omega), Res.bind_ok] at h
+      · rename_i hty
+        simp only [true_and, Nat.lt_irrefl, false_and, or_false, Decidable.not_not] at hty
+        rw [slice_ok src _ _ _ (by omega) (by omega), Res.bind_ok] at h
         unfold chunkLoop at h
         simp only [List.reverse_cons, List.reverse_nil, List.nil_append, Res.bind_ok, Nat.zero_add, Nat.add_sub_cancel_left] at h
-        exact ⟨by omega, h⟩
+        exact ⟨by omega, h, hty⟩
 
 end L4.Winbox
 
@@ -119,7 +122,8 @@ exactly where the input ends -/
 theorem fromBytes_two (src : Bytes) (m : Msg) (h1 : 258 ≤ src.length) (h2 : src.length ≤ 514) (h : fromBytes src = .ok m) :
     (src.getD 0 0).toNat = 255 ∧ src.length = 259 + (src.getD 257 0).toNat ∧ 1 ≤ (src.getD 257 0).toNat ∧
     fromChunks [⟨(src.drop 2).take 255, 255, (src.getD 1 0).toNat⟩,
-      ⟨(src.drop 259).take (src.getD 257 0).toNat, (src.getD 257 0).toNat, (src.getD 258 0).toNat⟩] = .ok m := by
+      ⟨(src.drop 259).take (src.getD 257 0).toNat, (src.getD 257 0).toNat, (src.getD 258 0).toNat⟩] = .ok m ∧
+    (src.getD 1 0).toNat = l4winbox_MessageChunkTypeAuth ∧ (src.getD 258 0).toNat = l4winbox_MessageChunkTypePrev := by
   unfold fromBytes at h
   split at h
   · cases h
@@ -139,7 +143,9 @@ theorem fromBytes_two (src : Bytes) (m : Msg) (h1 : 258 ≤ src.length) (h2 : sr
       rw [idx_ok' src 1 _ (by omega), Res.bind_ok] at h
       split at h
       · cases h
-      · rw [slice_ok src _ _ _ (by omega) (by omega), Res.bind_ok] at h
+      · rename_i hty0
+        simp only [true_and, Nat.lt_irrefl, false_and, or_false, Decidable.not_not] at hty0
+        rw [slice_ok src _ _ _ (by omega) (by omega), Res.bind_ok] at h
         unfold chunkLoop at h
         rw [if_neg (by omega)] at h
         simp only [l4winbox_MessageChunkBytesMax, Nat.zero_add, Nat.one_mul] at h
@@ -151,11 +157,14 @@ theorem fromBytes_two (src : Bytes) (m : Msg) (h1 : 258 ≤ src.length) (h2 : sr
           rw [idx_ok' src 258 _ (by omega), Res.bind_ok] at h
           split at h
           · cases h
-          · rw [slice_ok src _ _ _ (by omega) (by omega), Res.bind_ok] at h
+          · rename_i hty1
+            simp only [Nat.succ_ne_zero, false_and, false_or, Nat.lt_add_one, true_and, Decidable.not_not,
+              show (1 : Nat) ≠ 0 from by decide, show (1 : Nat) > 0 from by decide] at hty1
+            rw [slice_ok src _ _ _ (by omega) (by omega), Res.bind_ok] at h
             unfold chunkLoop at h
             simp only [List.reverse_cons, List.reverse_nil, List.nil_append, List.cons_append, Nat.add_sub_cancel_left, h0] at h
             simp only [true_and, not_or, Decidable.not_not, Nat.not_lt] at hc2
-            exact ⟨h0, by omega, by omega, h⟩
+            exact ⟨h0, by omega, by omega, h, hty0, hty1⟩
 
 end L4.Winbox
 
@@ -211,9 +220,9 @@ delimiter would have to be followed by 32 key bytes + parity in both -/
 theorem two_chunk_prefix_not_msg (src : Bytes) (m m' : Msg) (h1 : 258 ≤ src.length) (h2 : src.length ≤ 514)
     (h : fromBytes src = .ok m) : fromBytes (src.take 257) ≠ .ok m' := by
   intro hp
-  obtain ⟨_, hlen, hl2, hch⟩ := fromBytes_two src m h1 h2 h
+  obtain ⟨_, hlen, hl2, hch, _, _⟩ := fromBytes_two src m h1 h2 h
   have hlp : (src.take 257).length = 257 := by rw [List.length_take]; omega
-  obtain ⟨hl1, hch1⟩ := fromBytes_one (src.take 257) m' (by omega) hp
+  obtain ⟨hl1, hch1, _⟩ := fromBytes_one (src.take 257) m' (by omega) hp
   obtain ⟨i, hi, hil⟩ := fromChunks_ok _ _ hch
   obtain ⟨i1, hi1, hil1⟩ := fromChunks_ok _ _ hch1
   have hb0 : ((src.take 257).getD 0 0).toNat = 255 := by omega
@@ -282,7 +291,7 @@ open L4 L4.Gen
 /-- in a message that parses as two chunks the delimiter does not come early in the first chunk -/
 theorem two_chunk_no_earlyDelim (src : Bytes) (m : Msg) (h1 : 258 ≤ src.length) (h2 : src.length ≤ 514)
     (h : fromBytes src = .ok m) : earlyDelim ((src.drop 2).take 255) = false := by
-  obtain ⟨_, hlen, hl2, hch⟩ := fromBytes_two src m h1 h2 h
+  obtain ⟨_, hlen, hl2, hch, _, _⟩ := fromBytes_two src m h1 h2 h
   obtain ⟨i, hi, hil⟩ := fromChunks_ok _ _ hch
   have hP1len : ((src.drop 2).take 255).length = 255 := by
     rw [List.length_take, List.length_drop]; omega
@@ -353,11 +362,11 @@ theorem afterRead_prefix (cfg : Cfg) (hdr rest : Bytes) (h0 : Nat) (hh : hdr.len
       rename_i hc3
       simp only [l4winbox_MessageChunkBytesMax] at hc3
       obtain ⟨m, hm⟩ := decideMsg_yes_ok cfg _ hy
-      obtain ⟨_, hlen, _, _⟩ := fromBytes_two (hdr ++ rest) m (by omega) (by omega) hm
+      obtain ⟨_, hlen, _, _, _, _⟩ := fromBytes_two (hdr ++ rest) m (by omega) (by omega) hm
       rw [h257] at hlen
       exact ⟨m, hm, by omega⟩
     · obtain ⟨m, hm⟩ := decideMsg_yes_ok cfg _ hy
-      obtain ⟨_, hlen, _, _⟩ := fromBytes_two (hdr ++ rest) m (by omega) (by omega) hm
+      obtain ⟨_, hlen, _, _, _, _⟩ := fromBytes_two (hdr ++ rest) m (by omega) (by omega) hm
       rw [h257] at hlen
       exact ⟨m, hm, by omega⟩
   obtain ⟨m, hfb, hlen⟩ := hfb
@@ -542,7 +551,7 @@ theorem afterRead_no_stable (cfg : Cfg) (hdr rest ext : Bytes) (h0 : Nat) (hh : 
           rw [if_neg (by omega)]
           apply decideMsg_not_ok
           intro m hm
-          obtain ⟨_, hl, _, _⟩ := fromBytes_two (hdr ++ got') m (by omega) (by omega) hm
+          obtain ⟨_, hl, _, _, _, _⟩ := fromBytes_two (hdr ++ got') m (by omega) (by omega) hm
           have hg255' : got'.getD 255 0 = rest.getD 255 0 := hg255
           rw [h257, hg255'] at hl
           simp only [l4winbox_MessageChunkBytesMax] at h3
@@ -579,5 +588,272 @@ theorem verdict_no_stable (cfg : Cfg) (pre ext : Bytes) (h : verdict cfg pre = .
   have hb : ((pre.take 2).headD 0).toNat ≤ 255 := by
     have := ((pre.take 2).headD 0).toNat_lt; omega
   exact afterRead_no_stable cfg (pre.take 2) (pre.drop 2) ext _ (by rw [List.length_take]; omega) hb (by omega) h
+
+end L4.Winbox
+
+/-! ## `ToBytes ∘ FromBytes` -/
+namespace L4.Winbox
+open L4 L4.Gen
+
+theorem findDelim_at (l : Bytes) (k i : Nat) (h : findDelim l k = some i) :
+    (l.getD (i - k) 0).toNat = l4winbox_MessageChunkBytesDelimiter := by
+  induction l generalizing k with
+  | nil => simp [findDelim] at h
+  | cons x xs ih =>
+    simp only [findDelim] at h
+    split at h
+    · rename_i hx; cases h; simpa using hx
+    · have hk := (findDelim_spec xs (k + 1) i h).1
+      have := ih (k + 1) h
+      have e : i - k = (i - (k + 1)) + 1 := by omega
+      rw [e]; simpa using this
+
+/-- the fields `FromChunks` extracts, in terms of the payload -/
+theorem fromChunks_fields (chunks : List Chunk) (m : Msg) (h : fromChunks chunks = .ok m) :
+    ∃ i, findDelim (payload chunks) 0 = some i ∧ i + 2 + l4winbox_MessageAuthPublicKeyBytesTotal = (payload chunks).length ∧
+      m.user = (payload chunks).take i ∧
+      m.pk = ((payload chunks).drop (i + 1)).take ((payload chunks).length - 1 - (i + 1)) ∧
+      m.parity = (payload chunks).getD ((payload chunks).length - 1) 0 := by
+  unfold fromChunks at h
+  split at h
+  · cases h
+  · simp only [] at h
+    split at h
+    · cases h
+    · rename_i i hi
+      have hb := findDelim_spec _ _ _ hi
+      split at h
+      · cases h
+      · rename_i hne
+        rw [slice_ok _ 0 i _ (by omega) (by omega), Res.bind_ok,
+          slice_ok _ (i + 1) _ _ (by omega) (by omega), Res.bind_ok, idx_ok' _ _ _ (by omega), Res.bind_ok] at h
+        split at h
+        · cases h
+        · rename_i hc
+          simp only [not_or, Decidable.not_not] at hc
+          have hpk := hc.2.1
+          rw [slice_len _ _ _ (by omega) (by omega)] at hpk
+          injection h with h
+          subst h
+          refine ⟨i, hi, ?_, ?_, rfl, rfl⟩
+          · unfold payload; omega
+          · simp [payload]
+
+/-- a byte string is its first `i` bytes, byte `i`, the bytes up to the last one, and the last byte -/
+theorem split_four (s : Bytes) (i : Nat) (h : i + 2 ≤ s.length) :
+    s.take i ++ [s.getD i 0] ++ (s.drop (i + 1)).take (s.length - 1 - (i + 1)) ++ [s.getD (s.length - 1) 0] = s := by
+  apply List.ext_getElem
+  · simp [List.length_take, List.length_drop]; omega
+  · intro n h1 h2
+    simp only [List.getD_eq_getElem?_getD]
+    by_cases hn : n < i
+    · rw [List.getElem_append_left (by simp [List.length_take, List.length_drop]; omega),
+        List.getElem_append_left (by simp [List.length_take]; omega),
+        List.getElem_append_left (by simp [List.length_take]; omega)]
+      simp
+    · by_cases hn2 : n = i
+      · subst hn2
+        rw [List.getElem_append_left (by simp [List.length_take, List.length_drop]; omega),
+          List.getElem_append_left (by simp [List.length_take]; omega),
+          List.getElem_append_right (by simp [List.length_take]; omega)]
+        simp [List.length_take, Nat.min_eq_left (by omega : n ≤ s.length)]
+        rw [List.getElem?_eq_getElem (by omega)]; rfl
+      · by_cases hn3 : n < s.length - 1
+        · rw [List.getElem_append_left (by simp [List.length_take, List.length_drop]; omega),
+            List.getElem_append_right (by simp [List.length_take]; omega)]
+          simp [List.length_take, Nat.min_eq_left (by omega : i ≤ s.length)]
+          congr 1; omega
+        · have : n = s.length - 1 := by omega
+          subst this
+          rw [List.getElem_append_right (by simp [List.length_take, List.length_drop]; omega)]
+          simp [List.length_take, List.length_drop]
+          rw [List.getElem?_eq_getElem (by omega)]; rfl
+
+end L4.Winbox
+
+namespace L4.Winbox
+open L4 L4.Gen
+
+theorem toChunksLoop_short (S : Bytes) (hl1 : 1 ≤ S.length) (hl2 : S.length ≤ 254) :
+    toChunksLoop S S.length (S.length / l4winbox_MessageChunkBytesMax + 1) (S.length / l4winbox_MessageChunkBytesMax + 1) 0 [] =
+      [⟨S, S.length, l4winbox_MessageChunkTypeAuth⟩] := by
+  have hq : S.length / l4winbox_MessageChunkBytesMax + 1 = 1 := by
+    simp only [l4winbox_MessageChunkBytesMax]; omega
+  rw [hq]
+  unfold toChunksLoop
+  rw [if_neg (by omega)]
+  simp only [Nat.zero_mul, Nat.sub_zero, List.drop_zero]
+  have hmin : min l4winbox_MessageChunkBytesMax S.length = S.length := by
+    simp only [l4winbox_MessageChunkBytesMax]; omega
+  rw [hmin, if_neg (by omega)]
+  simp only [↓reduceIte, Nat.zero_add]
+  unfold toChunksLoop
+  simp only [List.reverse_cons, List.reverse_nil, List.nil_append]
+  rw [List.take_of_length_le (Nat.le_refl _), Nat.mod_eq_of_lt (by omega)]
+
+theorem toChunksLoop_full (S : Bytes) (hl : S.length = 255) :
+    toChunksLoop S S.length (S.length / l4winbox_MessageChunkBytesMax + 1) (S.length / l4winbox_MessageChunkBytesMax + 1) 0 [] =
+      [⟨S, S.length, l4winbox_MessageChunkTypeAuth⟩] := by
+  have hq : S.length / l4winbox_MessageChunkBytesMax + 1 = 2 := by
+    simp only [l4winbox_MessageChunkBytesMax]; omega
+  rw [hq]
+  unfold toChunksLoop
+  rw [if_neg (by omega)]
+  simp only [Nat.zero_mul, Nat.sub_zero, List.drop_zero]
+  have hmin : min l4winbox_MessageChunkBytesMax S.length = S.length := by
+    simp only [l4winbox_MessageChunkBytesMax]; omega
+  rw [hmin, if_neg (by omega)]
+  simp only [↓reduceIte, Nat.zero_add]
+  unfold toChunksLoop
+  rw [if_neg (by omega)]
+  simp only [Nat.one_mul]
+  have hmin2 : min l4winbox_MessageChunkBytesMax (S.length - l4winbox_MessageChunkBytesMax) = 0 := by
+    simp only [l4winbox_MessageChunkBytesMax]; omega
+  rw [hmin2, if_pos rfl]
+  simp only [List.reverse_cons, List.reverse_nil, List.nil_append]
+  rw [List.take_of_length_le (Nat.le_refl _), Nat.mod_eq_of_lt (by omega)]
+
+theorem toChunksLoop_two (S : Bytes) (hl1 : 256 ≤ S.length) (hl2 : S.length ≤ 509) :
+    toChunksLoop S S.length (S.length / l4winbox_MessageChunkBytesMax + 1) (S.length / l4winbox_MessageChunkBytesMax + 1) 0 [] =
+      [⟨S.take 255, 255, l4winbox_MessageChunkTypeAuth⟩, ⟨S.drop 255, S.length - 255, l4winbox_MessageChunkTypePrev⟩] := by
+  have hq : S.length / l4winbox_MessageChunkBytesMax + 1 = 2 := by
+    simp only [l4winbox_MessageChunkBytesMax]; omega
+  rw [hq]
+  unfold toChunksLoop
+  rw [if_neg (by omega)]
+  simp only [Nat.zero_mul, Nat.sub_zero, List.drop_zero]
+  have hmin : min l4winbox_MessageChunkBytesMax S.length = 255 := by
+    simp only [l4winbox_MessageChunkBytesMax]; omega
+  rw [hmin, if_neg (by omega)]
+  simp only [↓reduceIte, Nat.zero_add]
+  unfold toChunksLoop
+  rw [if_neg (by omega)]
+  simp only [Nat.one_mul]
+  have hmin2 : min l4winbox_MessageChunkBytesMax (S.length - l4winbox_MessageChunkBytesMax) = S.length - 255 := by
+    simp only [l4winbox_MessageChunkBytesMax]; omega
+  rw [hmin2, if_neg (by omega), if_neg (by omega)]
+  unfold toChunksLoop
+  simp only [List.reverse_cons, List.reverse_nil, List.nil_append, List.cons_append]
+  have h255 : l4winbox_MessageChunkBytesMax = 255 := rfl
+  have ht : (S.drop 255).take (S.length - 255) = S.drop 255 :=
+    List.take_of_length_le (by rw [List.length_drop]; omega)
+  rw [h255, ht, Nat.mod_eq_of_lt (by omega), Nat.mod_eq_of_lt (by omega)]
+
+end L4.Winbox
+
+namespace L4.Winbox
+open L4 L4.Gen
+
+theorem byte_of_toNat (b : UInt8) (n : Nat) (h : b.toNat = n) : UInt8.ofNat n = b := by
+  subst h; exact UInt8.ofNat_toNat
+
+theorem two_bytes (s : Bytes) (k : Nat) (h : k + 2 ≤ s.length) : (s.drop k).take 2 = [s.getD k 0, s.getD (k + 1) 0] := by
+  apply List.ext_getElem
+  · simp [List.length_take, List.length_drop]; omega
+  · intro n h1 h2
+    simp only [List.length_cons, List.length_nil] at h2
+    simp only [List.getD_eq_getElem?_getD]
+    have : n = 0 ∨ n = 1 := by omega
+    rcases this with rfl | rfl
+    · simp; rw [List.getElem?_eq_getElem (by omega)]; rfl
+    · simp; rw [List.getElem?_eq_getElem (by omega)]; rfl
+
+/-- what `ToChunks` works on is the payload `FromChunks` saw -/
+theorem dst_eq_payload (chunks : List Chunk) (m : Msg) (h : fromChunks chunks = .ok m) :
+    m.user ++ [UInt8.ofNat l4winbox_MessageChunkBytesDelimiter] ++ m.pk ++ [m.parity] = payload chunks ∧
+    m.pk.length + m.user.length + 2 = (payload chunks).length := by
+  obtain ⟨i, hi, hil, hu, hp, hpar⟩ := fromChunks_fields chunks m h
+  have hd := findDelim_at _ 0 i hi
+  simp only [Nat.sub_zero] at hd
+  simp only [l4winbox_MessageAuthPublicKeyBytesTotal] at hil
+  constructor
+  · rw [hu, hp, hpar, byte_of_toNat _ _ hd]
+    exact split_four _ i (by omega)
+  · rw [hu, hp, List.length_take, List.length_take, List.length_drop]; omega
+
+end L4.Winbox
+
+namespace L4.Winbox
+open L4 L4.Gen
+
+theorem toChunks_of_payload (m : Msg) (S : Bytes)
+    (hd : m.user ++ [UInt8.ofNat l4winbox_MessageChunkBytesDelimiter] ++ m.pk ++ [m.parity] = S)
+    (hl : m.pk.length + m.user.length + 2 = S.length) :
+    toChunks m = toChunksLoop S S.length (S.length / l4winbox_MessageChunkBytesMax + 1)
+      (S.length / l4winbox_MessageChunkBytesMax + 1) 0 [] := by
+  unfold toChunks
+  simp only [hd, hl]
+
+/-- **`ToBytes ∘ FromBytes = id`** for every input of up to two chunks (everything `Match` can hand to the parser is
+at most 293 bytes long) -/
+theorem toBytes_fromBytes (src : Bytes) (m : Msg) (hL : src.length ≤ 513) (h : fromBytes src = .ok m) :
+    toBytes m = src := by
+  have hmin : l4winbox_MessageAuthBytesMin ≤ src.length := by
+    unfold fromBytes at h
+    split at h
+    · cases h
+    · omega
+  simp only [l4winbox_MessageAuthBytesMin] at hmin
+  by_cases h257 : src.length ≤ 257
+  · obtain ⟨hlen, hch, hty⟩ := fromBytes_one src m h257 h
+    obtain ⟨hd, hl⟩ := dst_eq_payload _ m hch
+    have hS : payload [⟨(src.drop 2).take (src.getD 0 0).toNat, (src.getD 0 0).toNat, (src.getD 1 0).toNat⟩] = src.drop 2 := by
+      simp only [payload, List.map_cons, List.map_nil, List.flatten_cons, List.flatten_nil, List.append_nil]
+      rw [List.take_take]
+      apply List.take_of_length_le
+      rw [List.length_drop, List.length_take, List.length_drop]; omega
+    rw [hS] at hd hl
+    have hSl : (src.drop 2).length = src.length - 2 := List.length_drop
+    have hc : toChunks m = [⟨src.drop 2, (src.drop 2).length, l4winbox_MessageChunkTypeAuth⟩] := by
+      rw [toChunks_of_payload m _ hd hl]
+      by_cases h255 : (src.drop 2).length = 255
+      · exact toChunksLoop_full _ h255
+      · exact toChunksLoop_short _ (by omega) (by omega)
+    unfold toBytes
+    rw [hc]
+    simp only [List.map_cons, List.map_nil, List.flatten_cons, List.flatten_nil, List.append_nil]
+    rw [hSl, byte_of_toNat (src.getD 0 0) _ (by omega), byte_of_toNat (src.getD 1 0) _ hty]
+    have := two_bytes src 0 (by omega)
+    simp only [List.drop_zero, Nat.zero_add] at this
+    rw [← this, List.take_append_drop]
+  · obtain ⟨hb0, hlen, hl2, hch, hty0, hty1⟩ := fromBytes_two src m (by omega) (by omega) h
+    obtain ⟨hd, hl⟩ := dst_eq_payload _ m hch
+    have hP1 : ((src.drop 2).take 255).length = 255 := by
+      rw [List.length_take, List.length_drop]; omega
+    have hP2 : (src.drop 259).take (src.getD 257 0).toNat = src.drop 259 :=
+      List.take_of_length_le (by rw [List.length_drop]; omega)
+    have hS : payload [⟨(src.drop 2).take 255, 255, (src.getD 1 0).toNat⟩,
+        ⟨(src.drop 259).take (src.getD 257 0).toNat, (src.getD 257 0).toNat, (src.getD 258 0).toNat⟩] =
+        (src.drop 2).take 255 ++ src.drop 259 := by
+      have a1 : ((src.drop 2).take 255).take (min 255 ((src.drop 2).take 255).length) = (src.drop 2).take 255 := by
+        rw [hP1, Nat.min_self]; exact List.take_of_length_le (by omega)
+      have a2 : (src.drop 259).take (min (src.getD 257 0).toNat (src.drop 259).length) = src.drop 259 :=
+        List.take_of_length_le (by rw [List.length_drop]; omega)
+      simp only [payload, List.map_cons, List.map_nil, List.flatten_cons, List.flatten_nil, List.append_nil, hP2]
+      rw [a1, a2]
+    rw [hS] at hd hl
+    have hSl : ((src.drop 2).take 255 ++ src.drop 259).length = 255 + (src.getD 257 0).toNat := by
+      rw [List.length_append, hP1, List.length_drop]; omega
+    have hc : toChunks m = [⟨(src.drop 2).take 255, 255, l4winbox_MessageChunkTypeAuth⟩,
+        ⟨src.drop 259, (src.getD 257 0).toNat, l4winbox_MessageChunkTypePrev⟩] := by
+      rw [toChunks_of_payload m _ hd hl, toChunksLoop_two _ (by omega) (by omega), hSl]
+      rw [List.take_append_of_le_length (by omega), List.take_of_length_le (by omega : ((src.drop 2).take 255).length ≤ 255),
+        List.drop_append_of_le_length (by omega), List.drop_of_length_le (by omega : ((src.drop 2).take 255).length ≤ 255),
+        List.nil_append, Nat.add_sub_cancel_left]
+    unfold toBytes
+    rw [hc]
+    simp only [List.map_cons, List.map_nil, List.flatten_cons, List.flatten_nil, List.append_nil]
+    rw [byte_of_toNat (src.getD 0 0) _ hb0, byte_of_toNat (src.getD 1 0) _ hty0, UInt8.ofNat_toNat,
+      byte_of_toNat (src.getD 258 0) _ hty1]
+    have t0 := two_bytes src 0 (by omega)
+    have t1 := two_bytes src 257 (by omega)
+    simp only [List.drop_zero, Nat.zero_add] at t0
+    rw [← t0, ← t1]
+    -- src = take 2 ++ (drop 2).take 255 ++ (drop 257).take 2 ++ drop 259
+    have e1 : src.drop 259 = (src.drop 257).drop 2 := by rw [List.drop_drop]
+    have e2 : src.drop 257 = (src.drop 2).drop 255 := by rw [List.drop_drop]
+    rw [e1]
+    simp only [List.append_assoc]
+    rw [List.take_append_drop, e2, List.take_append_drop, List.take_append_drop]
 
 end L4.Winbox
